@@ -425,3 +425,24 @@ def check_distribution(case, rec):
         raise Violation("outcome-never-drawn", "%r never drawn in %d seeds "
                         "for %r" % (never[:4], d["seeds"], d))
     rec.nt(True)
+
+
+def _deep(total, delta, axis="sample", mode="without"):
+    """Pinned cases: a vector whose total is one past a power of two, asked
+    for exactly that depth (kept as it is), one less (one unit removed) or
+    one more (dropped); beside it a shallow vector, which is dropped."""
+    big = [float(total - 1), 1.0]
+    rows = [[big[0], 3.0], [big[1], 4.0]] if axis == "sample" else \
+        [big, [3.0, 4.0]]
+    return {"table": {"obs": ["o1", "o2"], "samp": ["s1", "s2"],
+                      "rows": rows, "obs_md": None, "samp_md": None,
+                      "type": None, "form": "dense", "history": []},
+            "axis": axis, "n": total + delta, "mode": mode, "seed": 7,
+            "call": "kw", "again": None, "npflag": False}
+
+
+REGRESSIONS = [_deep(2 ** 16 + 1, 0), _deep(2 ** 16 + 1, -1),
+               _deep(2 ** 20 + 1, 0), _deep(2 ** 20 + 1, -1, "observation"),
+               _deep(2 ** 20 + 1, 1), _deep(2 ** 22 + 1, 0, "observation"),
+               _deep(2 ** 22 + 1, -1), _deep(2 ** 20 + 1, 0, "sample",
+                                             "with")]
